@@ -98,6 +98,29 @@ func (c *Ctx) HandlerSort() []core.Ob {
 			obs = append(obs, o)
 		}
 	}
+	// the other way to keep a table ordered: find the place of the new handler by binary search and
+	// insert it there. sort.Search returns the first index whose predicate holds; the new handler
+	// goes behind every handler of a higher OR EQUAL priority exactly when the predicate is the
+	// strict "element's priority < new priority".
+	seen = map[*ssa.Function]bool{}
+	for f := range reach {
+		f = core.Origin(f)
+		if seen[f] {
+			continue
+		}
+		seen[f] = true
+		for _, ci := range callsIn(f, func(n string, _ *ssa.CallCommon) bool { return n == "sort.Search" }) {
+			nSorts++
+			o := c.ordOb(fmt.Sprintf("handler-sort:%s#%d", core.FnName(f), nSorts), "a handler is inserted behind every registered handler of a higher or equal priority (registration order breaks ties)", f)
+			o.Pos = c.P.Pos(ci.Pos())
+			if why := searchBehindEqual(ci.Common()); why != "" {
+				o.Status, o.Got = core.Violated, why
+			} else {
+				o.Got = "sort.Search with pred(i) = Priority[i] < new Priority"
+			}
+			obs = append(obs, o)
+		}
+	}
 	if nSorts == 0 {
 		o := c.ordOb("handler-sort:none", "AddListener/AddGeneric keep handler tables sorted by priority", nil)
 		o.Status, o.Got = core.Violated, "no sort call reachable from AddListener/AddGeneric"
@@ -197,6 +220,60 @@ func descendingPriority(cc *ssa.CallCommon) string {
 		}
 	}
 	return "comparator has no return"
+}
+
+// searchBehindEqual checks the predicate closure of a sort.Search that finds the insertion point.
+func searchBehindEqual(cc *ssa.CallCommon) string {
+	var cl *ssa.Function
+	for _, a := range cc.Args {
+		switch v := a.(type) {
+		case *ssa.MakeClosure:
+			cl, _ = v.Fn.(*ssa.Function)
+		case *ssa.Function:
+			cl = v
+		}
+	}
+	if cl == nil || len(cl.Params) != 1 {
+		return "the search predicate is not a function literal: cannot decide where equal priorities go"
+	}
+	for _, b := range cl.Blocks {
+		for _, in := range b.Instrs {
+			r, ok := in.(*ssa.Return)
+			if !ok || len(r.Results) != 1 {
+				continue
+			}
+			cmp, ok := r.Results[0].(*ssa.BinOp)
+			if !ok || !loadsField(cmp.X, "Priority") || !loadsField(cmp.Y, "Priority") {
+				return "the search predicate does not compare two Priority fields"
+			}
+			ex, ey := indexParamOf(cmp.X, cl) == 0, indexParamOf(cmp.Y, cl) == 0
+			if ex == ey {
+				return "the search predicate does not compare the element at the probed index with the new handler"
+			}
+			op := cmp.Op
+			if ey { // new OP element  ->  element OP' new
+				switch op {
+				case token.LSS:
+					op = token.GTR
+				case token.GTR:
+					op = token.LSS
+				case token.LEQ:
+					op = token.GEQ
+				case token.GEQ:
+					op = token.LEQ
+				}
+			}
+			switch op {
+			case token.LSS:
+				return ""
+			case token.LEQ:
+				return "the search predicate is not strict (element <= new): the new handler is put in front of the registered handlers of the same priority, ties run in reverse registration order"
+			default:
+				return "the search predicate orders ascending: lower priority first"
+			}
+		}
+	}
+	return "the search predicate has no return"
 }
 
 // indexParamOf: the value is a field load of slice[param k]: returns k.
@@ -1018,8 +1095,11 @@ func (c *Ctx) RegionOrder() []core.Ob {
 						continue
 					}
 					for _, s := range b.Succs {
-						if !lp.body[s] && !failsOnly(s) {
-							l.Status, l.Got = core.Violated, "a block inside a scan loop jumps out of the loop (break/return): later entries are skipped"
+						// (giving up because a read failed is not a way of skipping entries; refusing the file
+						// because of what an entry says is: a header slot is written before its data, so an
+						// entry may point past the end of the file after a crash)
+						if !lp.body[s] && !(failsOnly(s) && passesOnCallError(s)) {
+							l.Status, l.Got = core.Violated, "a block inside a scan loop jumps out of the loop (break/return, or a refusal that depends on an entry's value): later entries are skipped"
 						}
 					}
 				}
@@ -1913,6 +1993,78 @@ func failsOnly(b *ssa.BasicBlock) bool {
 	}
 	last := ret.Results[len(ret.Results)-1]
 	return isErrorType(last.Type()) && errKnownNonNil(last, b)
+}
+
+// passesOnCallError: the error the block returns is (or wraps) the error result of a call - an
+// operation failed - rather than an error made up on the spot or a sentinel (a verdict on data).
+func passesOnCallError(b *ssa.BasicBlock) bool {
+	ret, ok := b.Instrs[len(b.Instrs)-1].(*ssa.Return)
+	if !ok || len(ret.Results) == 0 {
+		return false
+	}
+	seen := map[ssa.Value]bool{}
+	var from func(v ssa.Value, d int) bool
+	from = func(v ssa.Value, d int) bool {
+		if d > 6 || seen[v] {
+			return false
+		}
+		seen[v] = true
+		switch x := v.(type) {
+		case *ssa.Extract:
+			_, isCall := x.Tuple.(*ssa.Call)
+			return isCall && isErrorType(x.Type())
+		case *ssa.Call:
+			n := calleeName(x.Common())
+			if n == "errors.New" {
+				return false
+			}
+			if n == "fmt.Errorf" || n == "errors.Join" {
+				for _, a := range x.Call.Args {
+					if from(a, d+1) {
+						return true
+					}
+				}
+				return false
+			}
+			return isErrorType(x.Type())
+		case *ssa.MakeInterface:
+			return from(x.X, d+1)
+		case *ssa.Slice:
+			return from(x.X, d+1)
+		case *ssa.Alloc:
+			// the variadic argument array of fmt.Errorf
+			if x.Referrers() != nil {
+				for _, r := range *x.Referrers() {
+					if ia, ok := r.(*ssa.IndexAddr); ok && ia.Referrers() != nil {
+						for _, u := range *ia.Referrers() {
+							if st, ok := u.(*ssa.Store); ok && from(st.Val, d+1) {
+								return true
+							}
+						}
+					}
+				}
+			}
+			return false
+		case *ssa.Phi:
+			for _, e := range x.Edges {
+				if !from(e, d+1) {
+					return false
+				}
+			}
+			return len(x.Edges) > 0
+		case *ssa.UnOp:
+			// a named result or local holding the error of a call
+			if al, ok := x.X.(*ssa.Alloc); ok && x.Op == token.MUL && al.Referrers() != nil {
+				for _, r := range *al.Referrers() {
+					if st, ok := r.(*ssa.Store); ok && st.Addr == ssa.Value(al) && from(st.Val, d+1) {
+						return true
+					}
+				}
+			}
+		}
+		return false
+	}
+	return from(ret.Results[len(ret.Results)-1], 0)
 }
 
 // handlerRunners: the functions of f's package that f calls statically and that call function
